@@ -816,6 +816,75 @@ func ruleC06VerbatimBody(p *Prog, a *Anchors, r *Report) {
 			}
 		}
 	}
+	// where the mark is the mode flag as it is when the token is emitted (emit stores l.inVerbatim), the body has to be
+	// emitted BEFORE the mode is left: text flushed after `inVerbatim = false` in the same pass is the verbatim body
+	// without its mark.
+	var flagMarkers []*ssa.Function
+	for _, f := range cl {
+		for _, b := range f.Blocks {
+			for _, in := range b.Instrs {
+				if st, fld := tokenBoolStore(in); st != nil && fld == marker {
+					if _, isC := constBool(st.Val); !isC && t2FreshModeLoad(p, st.Val, st) {
+						flagMarkers = append(flagMarkers, f)
+					}
+				}
+			}
+		}
+	}
+	if len(flagMarkers) > 0 {
+		reachesMarker := func(ci ssa.CallInstruction) bool {
+			callee := ci.Common().StaticCallee()
+			if callee == nil {
+				return false
+			}
+			for _, g := range clusterOf(p, callee, 2) {
+				for _, m := range flagMarkers {
+					if g == m {
+						return true
+					}
+				}
+			}
+			return false
+		}
+		for _, f := range cl {
+			for _, b := range f.Blocks {
+				for i, x := range b.Instrs {
+					st, isSt := x.(*ssa.Store)
+					if !isSt || !isFieldAddrOf(st.Addr, "lexer", "inVerbatim") {
+						continue
+					}
+					if bv, isC := constBool(st.Val); isC && bv {
+						continue
+					}
+					// forward from the store within the same pass of the loop: stop at blocks that dominate the store's block
+					var late ssa.Instruction
+					seenB := map[*ssa.BasicBlock]bool{}
+					var walk func(blk *ssa.BasicBlock, from int)
+					walk = func(blk *ssa.BasicBlock, from int) {
+						for _, y := range blk.Instrs[from:] {
+							if ci, ok := y.(ssa.CallInstruction); ok && late == nil && reachesMarker(ci) {
+								late = y
+							}
+						}
+						for _, sb := range blk.Succs {
+							if seenB[sb] || sb.Dominates(b) {
+								continue
+							}
+							seenB[sb] = true
+							walk(sb, 0)
+						}
+					}
+					walk(b, i+1)
+					key := p.FuncName(f) + ":leave-after-emit"
+					if late == nil {
+						r.OK(key, p.InstrPos(x), "nothing is emitted between leaving verbatim mode and the next pass of the scanning loop")
+					} else {
+						r.Bad(key, p.InstrPos(x), "text is emitted (at %s) after the lexer has left verbatim mode, and the mark is the mode flag as it is at that moment: the body of the verbatim block leaves the lexer unmarked, so neighbouring `-` markers and the block options trim it", p.InstrPos(late))
+					}
+				}
+			}
+		}
+	}
 	// the parser: trim flags only for unmarked tokens
 	flags := map[string]bool{}
 	if n := p.Named("nodeHTML"); n != nil {
